@@ -21,7 +21,7 @@ impl Property for C11 {
          oracle = objective evaluated exactly on ALL 2^n assignments + multilinear reduction (unique representation); non-trivial = n>=3 and (a monomial with a repeated id or a cancelling pair); distinct = sha256(instance, mode)"
     }
     fn required_labels(&self) -> Vec<String> {
-        ["x^2", "cancel", "deg>2-collapses-to-pair", "refusal=constraint", "refusal=maximize", "refusal=non-binary", "refusal=qubo-3-distinct", "format=pubo", "format=qubo", "regime=general", "regime=dyadic", "removed-constraint-present", "objective-absent", "unused-non-binary-variable"].iter().map(|s| s.to_string()).collect()
+        ["x^2", "cancel", "deg>2-collapses-to-pair", "refusal=constraint", "refusal=maximize", "refusal=non-binary", "refusal=qubo-3-distinct", "format=pubo", "format=qubo", "regime=general", "regime=dyadic", "removed-constraint-present", "objective-absent", "unused-non-binary-variable", "non-binary-variable-in-removed-constraint"].iter().map(|s| s.to_string()).collect()
     }
     fn cases(&self, tier: Tier) -> usize {
         match tier {
@@ -113,12 +113,15 @@ impl Property for C11 {
             inst.objective = None;
             ctx.label("objective-absent");
         }
-        // variables that are not binary but are not used by the objective do not prevent the export
+        // variables that are not binary but are not used by the objective do not prevent the export,
+        // even when a removed constraint (e.g. one relaxed with an integer slack) mentions them
+        let mut foreign: Option<u64> = None;
         if t.p(64) {
             let mut v = v1::DecisionVariable::default();
             v.id = next + 5;
             v.kind = if t.coin() { KIND_CONTINUOUS } else { KIND_INTEGER };
             v.bound = Some(crate::mk::bound(-3.0, 3.0));
+            foreign = Some(v.id);
             inst.decision_variables.push(v);
             ctx.label("unused-non-binary-variable");
         }
@@ -127,7 +130,12 @@ impl Property for C11 {
             let mut c = v1::Constraint::default();
             c.id = 3;
             c.equality = EQ_ZERO;
-            c.function = Some(crate::mk::flin(crate::mk::linear(vec![(ids[0], 1.0)], 0.0)));
+            let mut lt = vec![(ids[0], 1.0)];
+            if let Some(fid) = foreign {
+                lt.push((fid, -1.0));
+                ctx.label("non-binary-variable-in-removed-constraint");
+            }
+            c.function = Some(crate::mk::flin(crate::mk::linear(lt, 0.0)));
             let mut rc = v1::RemovedConstraint::default();
             rc.constraint = Some(c);
             rc.removed_reason = "penalty".into();
